@@ -1423,7 +1423,44 @@ def check_cross(cx, kind, schema, ms, oks):
                 break
     check_transplant(cx, tc, special, ms, decoy)
     check_handed_out_copies(cx, ms, oks)
+    check_schema_switch(cx, tc, special, ms, decoy)
     cx.acc.count("cross_table_collections")
+
+
+def check_schema_switch(cx, tc, special, ms, decoy):
+    """ONE table object whose rows have been read under schema A gets schema B together with B-encoded
+    metadata through set_columns(..., metadata_schema=...) / replace_with (not through the property setter):
+    its rows must decode under B from then on."""
+    import tskit
+
+    src = getattr(tc, special)
+    n = src.num_rows
+    if n == 0:
+        return
+    vals = [{"q": 11 + j, "w": "sw"} for j in range(n)]
+    md, off = tskit.pack_bytes([decoy.validate_and_encode_row(v) for v in vals])
+    for how in ("set_columns", "replace_with"):
+        t = src.copy()
+        for j in range(n):
+            _md(t[j])  # rows are read under the first schema
+        d = t.asdict()
+        d["metadata"], d["metadata_offset"], d["metadata_schema"] = md, off, repr(decoy)
+        if how == "set_columns":
+            st, res = _call(lambda: t.set_columns(**d))
+        else:
+            other = src.copy()
+            other.set_columns(**d)
+            st, res = _call(t.replace_with, other)
+        if st != "ok":
+            cx.fail(f"switch:{how}:raised", f"{special}: {res!r}")
+            continue
+        cx.acc.count("schema_switches")
+        for j, v in enumerate(vals):
+            got = _md(t[j])
+            if not R.same(got, R.fill(DECOY, v)):
+                cx.fail(f"switch:{how}:row_metadata", f"{special} row {j} after {how}(metadata_schema=<other schema>): "
+                        f"{_short(got)} expected {_short(v)} (rows had been read under the previous schema)")
+                break
 
 
 def _scribble(x):
